@@ -289,6 +289,16 @@ func (kc *Cache[V]) evict() *Entry[V] {
 		}
 	}
 	if n < 0 {
+		// no bucket is above the minimum (possible when every bucket, including
+		// the locus' own, holds exactly minPerBucket): take the farthest non-empty bucket.
+		for i, b := range kc.buckets {
+			if b.len() > 0 {
+				n = i
+				break
+			}
+		}
+	}
+	if n < 0 {
 		return nil
 	}
 	b := kc.buckets[n]
